@@ -4,13 +4,16 @@
 set -u
 R=/tmp/regress
 rm -rf $R; mkdir -p $R
-git -C /repo worktree add -q --detach $R/repo HEAD
+git -C /repo worktree prune; git -C /repo worktree add -q --detach $R/repo HEAD
 rsync -a --exclude .build --exclude .git --exclude replays /verif/ $R/verif/
 sed -i "s|path = \"/repo|path = \"$R/repo|g" $R/verif/symx/Cargo.toml
 sed -i "s|/repo/incremental-map|$R/repo/incremental-map|g" $R/verif/kani/run_c18.py
 OUT=/verif/seeded/RESULTS.md
+# RESUME=1: keep the rows already in $OUT.tmp (an interrupted run) and only run the missing ones
+if [ -z "${RESUME:-}" ] || [ ! -f $OUT.tmp ]; then
 echo "# Seed regression ($(date -u +%FT%TZ), /repo $(git -C /repo log -1 --format=%h), /verif $(git -C /verif log -1 --format=%h))" > $OUT.tmp
 echo "| seed | check | exit | first violation |" >> $OUT.tmp; echo "|---|---|---|---|" >> $OUT.tmp
+fi
 cd $R/verif && ./setup.sh >/dev/null 2>&1
 for D in /verif/seeded/*/; do
   S=$(basename $D); [ -f $D/meta.json ] || continue
@@ -18,6 +21,7 @@ for D in /verif/seeded/*/; do
   [ -n "$CHECKS" ] || continue
   git -C $R/repo checkout -q -- . ; git -C $R/repo apply $D/patch.diff || { echo "| $S | - | patch does not apply | |" >> $OUT.tmp; continue; }
   for C in $CHECKS; do
+    grep -q "^| $S | $C | " $OUT.tmp && continue
     O=$(cd $R/verif && SYMX_STOP_ON_VIOLATION=1 timeout 1500 ./check $C --tier quick 2>&1); RC=$?
     V=$(echo "$O" | grep -E '^violation' | head -1 | cut -c1-140 | tr '|' '/')
     echo "| $S | $C | $RC | $V |" >> $OUT.tmp
